@@ -240,16 +240,23 @@ def conforms(n, d, logical=True):
     if k == "long":
         return isinstance(d, int) and not isinstance(d, bool) and LONG_MIN <= d <= LONG_MAX
     if k == "float":
-        return isinstance(d, (int, float)) and not isinstance(d, bool) and f32_representable(d)
+        # documented mapping: int or float; the value is rounded to binary32 on write
+        # (a finite value whose rounding overflows binary32 cannot be written)
+        if isinstance(d, bool) or not isinstance(d, (int, float)):
+            return False
+        try:
+            struct.pack("<f", d)
+            return True
+        except (OverflowError, struct.error):
+            return False
     if k == "double":
         if isinstance(d, bool) or not isinstance(d, (int, float)):
             return False
-        if isinstance(d, int):
-            try:
-                return int(float(d)) == d
-            except OverflowError:
-                return False
-        return True
+        try:
+            struct.pack("<d", d)
+            return True
+        except (OverflowError, struct.error):
+            return False
     if k == "bytes":
         return isinstance(d, (bytes, bytearray))
     if k == "string":
@@ -397,6 +404,8 @@ def _enc(n, d, out, sites, lay, depth):
                 _enc(f.type, d[f.name], out, sites, lay, depth + 1)
             elif f.has_default:
                 _enc(f.type, default_value(f.type, f.default), out, sites, lay, depth + 1)
+            elif conforms(f.type, None, logical=False):
+                _enc(f.type, None, out, sites, lay, depth + 1)
             else:
                 raise RefError(f"missing field {f.name}")
         return
